@@ -160,7 +160,10 @@ def _glob_word(w, existing):
     if not has:
         return w
     if existing is None:
-        return None
+        existing = ()
+        for ch in w:
+            if ch == '*' or ch == '?' or ch == chr(92):
+                return None
     lit = ''
     i = 0
     n = len(w)
@@ -170,10 +173,16 @@ def _glob_word(w, existing):
             lit += w[i + 1]        # glob: a backslash quotes the next character
             i += 2
             continue
+        if c == '[' and w.find(']', i + 2) < 0:
+            lit += c               # no closing bracket: glob(3) takes '[' literally
+            i += 1
+            continue
         if c in GLOBCH:
             return None            # a live wildcard: the result depends on the directory
         lit += c
         i += 1
+    if lit == w:
+        return w
     for e in existing:
         if e == lit:
             return lit
